@@ -3407,7 +3407,7 @@ impl LineBuf {
 					let Some(edit) = edit_provider.pop() else { return Ok(()) };
 					let Edit { pos, cursor_pos, old, old_diff, new, new_diff, merging: _, .. } = edit;
 
-					self.buffer.replace_range(pos..pos + new.len(), &old);
+					self.buffer = old.clone();
 					let new_cursor_pos = self.cursor.get();
 					let in_insert_mode = !self.cursor.exclusive;
 
